@@ -102,14 +102,20 @@ def check(ctx):
         ctx.require(R1, (CERT, "identifiers") in sl.fields and sl.has_leaf("upvar:0"), c.where(), "NewOrder::new receives cert.identifiers", [RC, "order-source"])
         ctx.require(R1, not shrinkers_in(sl), c.where(), "no identifier is dropped or reordered before the order is built (%s)" % shrinkers_in(sl), [RC, "order-shrunk"])
     nb = prog.must_body("acmed::acme_proto::structs::order::NewOrder::new")
-    for i, st in agg_assigns(nb, "acmed::acme_proto::structs::order::NewOrder"):
+    no_rows = new_order_table(prog)
+    if no_rows is not None:
+        # evaluation first: NewOrder::new interpreted on configured identifier lists (every conversion helper followed)
+        for names, got, want in no_rows:
+            ctx.require(R1, got == want, "%s:%s" % (nb.file, nb.line), "NewOrder::new(%s).identifiers = %s (every configured identifier, in order, type and value copied: %s)" % (names, got, want),
+                        ["NewOrder::new", "evaluated", repr(names)])
+    for i, st in ([] if no_rows is not None else agg_assigns(nb, "acmed::acme_proto::structs::order::NewOrder")):
         idx = st["rv"]["fields"].index("identifiers")
         sl = origins(nb, st["rv"]["ops"][idx], through=True)
         ctx.require(R1, sl.has_leaf("param:1") and not shrinkers_in(sl), where(nb, i), "NewOrder.identifiers = every element of the parameter (%s)" % shrinkers_in(sl), ["NewOrder::new", "identifiers"])
         ctx.require(R1, "fn:acmed::acme_proto::structs::order::Identifier::from_generic" in sl.leaves or any(x.is_("acmed::acme_proto::structs::order::Identifier::from_generic") for x in sl.calls),
                     where(nb, i), "each element goes through Identifier::from_generic", ["NewOrder::new", "from_generic"])
-    fg = prog.must_body("acmed::acme_proto::structs::order::Identifier::from_generic")
-    for i, st in agg_assigns(fg, "acmed::acme_proto::structs::order::Identifier"):
+    fg = prog.must_body("acmed::acme_proto::structs::order::Identifier::from_generic") if no_rows is None else None
+    for i, st in (agg_assigns(fg, "acmed::acme_proto::structs::order::Identifier") if fg is not None else []):
         for fld in st["rv"]["fields"]:
             sl = origins(fg, st["rv"]["ops"][st["rv"]["fields"].index(fld)], through=True)
             ctx.require(R1, {f for a, f in sl.fields if a == IDENT} == {fld}, where(fg, i), "order identifier `%s` <- configured identifier `%s`" % (fld, fld), ["from_generic", fld])
@@ -479,6 +485,13 @@ def normalisation_rule(ctx, R4):
             return vbool(True)
         return None
 
+    rows = identifier_new_table(prog)
+    if rows is not None:
+        # evaluation first: Identifier::new on concrete values (to_idna, the challenge parser and every identifier helper followed)
+        for (t_, v_), got, want in rows:
+            ctx.require(R4, got == want, "%s:%s" % (inew.file, inew.line), "Identifier::new(%s, %r).value = %r (expected %r: %s)" % (t_, v_, got, want, "to_idna(v)" if t_ == "Dns" else "IpAddr::from_str(v).to_string()"),
+                        [IDENT + "::new", "normalise", t_, v_])
+        return
     for v, wantpat in (("Dns", r"IDNA\(.*VALUE"), ("Ip", r"TEXT\(IPADDR\(.*VALUE")):
         r = run(inew, {1: variant(IDT, v), 2: Val("ref", marker("VALUE")), 3: Val("ref", marker("CH")), 4: Val("ref", marker("ENV"))}, model)
         got = None
@@ -491,3 +504,92 @@ def normalisation_rule(ctx, R4):
                     got = idv.v[names.index("value")].deref()
         ctx.require(R4, got is not None and re.search(wantpat, repr(got)) is not None, "%s:%s" % (inew.file, inew.line),
                     "Identifier::new(%s, v).value = %s (got %r, run %s)" % (v, "to_idna(v)" if v == "Dns" else "IpAddr::from_str(v).to_string()", got, r.kind), [IDENT + "::new", "normalise", v])
+
+
+def new_order_table(prog):
+    """NewOrder::new EVALUATED on lists of configured identifiers: [(input [(type, value)], got [(type, value)], want)] or None"""
+    from ..absint import Interp, Val, struct_val, variant, vstr
+    NO, OI, IT = "acmed::acme_proto::structs::order::NewOrder", "acmed::acme_proto::structs::order::Identifier", "acmed::identifier::IdentifierType"
+    nb = prog.body(NO + "::new")
+    if nb is None or prog.adt(IDENT) is None or prog.adt(OI) is None or "identifiers" not in prog.adt_fields(NO):
+        return None
+    f_in, f_out = prog.adt_fields(IDENT), prog.adt_fields(OI)
+    if not {"id_type", "value"} <= set(f_in) or not {"id_type", "value"} <= set(f_out):
+        return None
+    rows = []
+    samples = [[("Dns", "example.org"), ("Ip", "203.0.113.7"), ("Dns", "*.example.org"), ("Ip", "2001:db8::1"), ("Dns", "a.example.org")], [("Ip", "192.0.2.1")], [], [("Dns", "b.test"), ("Dns", "a.test"), ("Dns", "b.test")]]
+    for names in samples:
+        lst = Val("list", [struct_val(prog, IDENT, {"id_type": variant(IT, t), "value": vstr(v)}) for t, v in names])
+        try:
+            it = Interp(nb, None, 100000)
+            it.follow = lambda cs: "acme_proto::structs::order::" in (cs.name or "") or "acmed::identifier::" in (cs.name or "")
+            r = it.run({1: Val("ref", lst)})
+        except Exception:
+            return None
+        rv = r.ret.deref() if r.kind == "return" and r.ret is not None else None
+        if rv is None or rv.k != "adt":
+            return None
+        ids = rv.v[prog.adt_fields(NO).index("identifiers")].deref()
+        if ids.k != "list":
+            return None
+        got = []
+        for x in ids.v:
+            xd = x.deref()
+            if xd.k != "adt" or not xd.extra or xd.extra[0] != OI:
+                return None
+            t_, v_ = xd.v[f_out.index("id_type")].deref(), xd.v[f_out.index("value")].deref()
+            if t_.k != "variant" or v_.k != "str":
+                return None
+            got.append((t_.v, v_.v))
+        rows.append((names, got, list(names)))
+    return rows
+
+
+def identifier_new_table(prog):
+    """Identifier::new EVALUATED: [((type, configured value), stored value | "Err", expected)] or None. Expected: lower-cased A-labels
+    for DNS names (RFC 5891 through the punycode crate, answered by Python's codec), the canonical text of the address for IPs, an
+    error for text that is not an address."""
+    import ipaddress
+    from ..absint import Interp, Val, ok as _ok, variant, vstr
+    inew = prog.body(IDENT + "::new")
+    if inew is None or inew.arg_count != 4:
+        return None
+
+    def model(cs, args):
+        n = cs.name or ""
+        d = [a.deref() for a in args]
+        if n.startswith("punycode::encode") and d and d[0].k == "str":
+            return _ok(Val("str", d[0].v.encode("punycode").decode("ascii")))
+        return None
+    samples = [("Dns", "example.org", "http-01"), ("Dns", "Example.ORG", "dns-01"), ("Dns", "*.Example.org", "dns-01"), ("Dns", "b\u00fccher.example", "tls-alpn-01"), ("Ip", "203.0.113.7", "http-01"),
+               ("Ip", "2001:DB8:0:0:0:0:0:1", "tls-alpn-01"), ("Ip", "2001:db8::0:1", "http-01"), ("Ip", "not-an-address", "http-01"), ("Ip", "192.0.2.300", "http-01")]
+    rows = []
+    for t_, v_, ch_ in samples:
+        try:
+            it = Interp(inew, model, 100000)
+            it.follow = lambda cs: (cs.name or "").startswith(("acmed::identifier::", "<acmed::identifier::", "acme_common::to_idna", "acmed::acme_proto::Challenge", "<acmed::acme_proto::Challenge"))
+            r = it.run({1: variant(IDT, t_), 2: Val("ref", vstr(v_)), 3: Val("ref", vstr(ch_)), 4: Val("ref", Val("list", [], "map"))})
+        except Exception:
+            return None
+        rv = r.ret.deref() if r.kind == "return" and r.ret is not None else None
+        if rv is None or rv.k != "adt" or not rv.extra:
+            return None
+        if rv.extra[1] == "Err":
+            got = "Err"
+        else:
+            idv = rv.v[0].deref() if rv.v else None
+            if idv is None or idv.k != "adt":
+                return None
+            val = idv.v[prog.adt_fields(IDENT).index("value")].deref()
+            if val.k != "str":
+                return None
+            got = val.v
+        if t_ == "Dns":
+            want = ".".join((l.lower() if all(ord(c) < 128 for c in l) else "xn--" + l.lower().encode("punycode").decode("ascii")) for l in v_.split("."))
+        else:
+            try:
+                want = str(ipaddress.ip_address(v_))
+            except ValueError:
+                want = "Err"
+        rows.append(((t_, v_), got, want))
+    return rows
